@@ -659,6 +659,9 @@ def r07_8(ctx, run, rule='R07.8'):
                     k_ = None
                     if r_ is not None and agg_variant(r_) and r_[1][1].endswith(('ops::RangeTo', 'ops::Range')) and r_[2]:
                         k_ = const_of(r_[2][-1])
+                    elif r_ is not None and agg_variant(r_) and r_[1][1].endswith('ops::RangeToInclusive') and r_[2]:
+                        k_ = const_of(r_[2][-1])           # `..=k` needs k + 1 bytes
+                        k_ = k_ + 1 if isinstance(k_, int) else None
                     if k_ is None:
                         return 'unsure'
                     return 'ok' if k_ <= 8 else 'short'
@@ -811,3 +814,96 @@ def r11_6(ctx, run, rule='R11.6'):
                           if kind == 'map' else 'the elements come out right-then-left'), at)
         else:
             run.undecided(rule, fn, d, 'the operands of this merge could not be traced to the two parameters: direction not decided', at)
+
+
+# ------------------------------------------------------------------ R06.15 concat returns an operand unchanged only when both are of one kind
+
+def r06_15(ctx, run, rule='R06.15'):
+    """concat_jsonb may answer with one operand copied verbatim only where the other contributes nothing *and* the result kind is the
+    operand's kind: [] || [] , {} || {} .  With operands of different kinds the result is an array that wraps the non-array side
+    (1 || [] = [1], [1] || {} = [1,{}]), so a path that copies a whole operand must have established that both header kinds are equal."""
+    f = ctx.facts
+    fn = 'functions::concat_jsonb'
+    b = f.bodies.get(fn)
+    MASK = cv(f, 'CONTAINER_HEADER_TYPE_MASK')
+    kinds = {cv(f, 'SCALAR_CONTAINER_TAG'): 'S', cv(f, 'ARRAY_CONTAINER_TAG'): 'A', cv(f, 'OBJECT_CONTAINER_TAG'): 'O'}
+    if b is None or MASK is None or None in kinds:
+        run.undecided(rule, fn, 'verbatim-operand', 'concat_jsonb or the header constants not found (anchor lost)')
+        return
+    loc = f'{b.file}:{b.line}'
+    paths, loops = region_paths(b)
+
+    def side_of(t):
+        """1 / 2 when the term is the header kind of the left / right parameter: read_u32(param, 0) & TYPE_MASK"""
+        t = strip_casts(deref_all(t))
+        if not (t[0] == 'bin' and t[1] == 'BitAnd' and any(const_of(x) == MASK for x in (t[2], t[3]))):
+            return None
+        for s in subterms(t):
+            if is_call(s, 'functions::read_u32') and len(s[2]) == 2 and const_of(s[2][1]) == 0:
+                r = deref_all(s[2][0])
+                if r[0] == 'init' and r[1] in (1, 2):
+                    return r[1]
+        return None
+
+    n = 0
+    bad = []
+    unsure = []
+    for q in paths:
+        if q.end[0] != 'return':
+            continue
+        r = deref_all(q.ret) if q.ret is not None else None
+        if not (r is not None and agg_variant(r) and r[1][2] == 'Ok'):
+            continue
+        copies = [deref_all(e[2][1])[1] for e in q.calls() if called(e[1], 'Vec::extend_from_slice') and len(e[2]) == 2 and deref_all(e[2][0])[0] == 'init'
+                  and deref_all(e[2][1])[0] == 'init' and deref_all(e[2][1])[1] in (1, 2)]
+        if not copies or any(called(e[1], 'ArrayBuilder::build_into', 'ObjectBuilder::build_into') for e in q.calls()):
+            continue
+        n += 1
+        poss = {1: set('SAO'), 2: set('SAO')}
+        equal = False
+        unread = False
+        for c in q.conds:
+            t = c[0]
+            sd = side_of(t)
+            if sd is not None:
+                if c[1] == 'eq' and c[2] in kinds:
+                    poss[sd] &= {kinds[c[2]]}
+                elif c[1] == 'ne' and isinstance(c[2], tuple):
+                    poss[sd] -= {kinds[k] for k in c[2] if k in kinds}
+                continue
+            if t[0] == 'bin' and t[1] in ('Eq', 'Ne') and isinstance(c[2], bool):
+                a_, b_ = side_of(t[2]), side_of(t[3])
+                if a_ and b_ and a_ != b_:
+                    if (t[1] == 'Eq') == c[2]:
+                        equal = True
+                    continue
+                for x, y in ((t[2], t[3]), (t[3], t[2])):
+                    sd = side_of(x)
+                    k = const_of(y)
+                    if sd and k in kinds:
+                        if (t[1] == 'Eq') == c[2]:
+                            poss[sd] &= {kinds[k]}
+                        else:
+                            poss[sd] -= {kinds[k]}
+                        break
+                else:
+                    if any(side_of(s_) for s_ in subterms(t)):
+                        unread = True
+            elif any(side_of(s_) for s_ in subterms(t)) and not (t[0] == 'bin' and t[1] == 'BitAnd'):
+                unread = True
+        same = equal or (len(poss[1]) == 1 and poss[1] == poss[2])
+        if same:
+            continue
+        combos = sorted(l + r_ for l in poss[1] for r_ in poss[2] if l != r_)
+        if unread:
+            unsure.append(combos)
+        else:
+            bad.append(('left' if copies[0] == 1 else 'right', combos))
+    if bad:
+        run.violation(rule, fn, 'verbatim-operand', f'the {bad[0][0]} operand is returned unchanged on a path that admits operands of different kinds (left/right kinds {", ".join(bad[0][1][:6])}; '
+                      'S scalar, A array, O object): concatenating different kinds always yields an array that wraps the non-array side', loc)
+    elif unsure:
+        run.undecided(rule, fn, 'verbatim-operand', 'an operand is returned unchanged under a kind test this rule does not read: not decided', loc)
+    else:
+        run.proved(rule, fn, 'verbatim-operand', f'{n} path(s) return an operand unchanged, each with both header kinds established equal' if n else
+                   'no path returns an operand unchanged: every result is rebuilt by a builder', loc, nontrivial=bool(n))
